@@ -299,6 +299,9 @@ func (e *Env) convert(v Value, to types.Type) Value {
 
 // zeroValue of a Go type. nilOK: produce nil for reference types.
 func (e *Env) zeroValue(t types.Type, nilOK bool) Value {
+	if isBigIntType(t) {
+		return Scalar{IntC(0), mathIntType}
+	}
 	if as := abstractSort(t); as != nil {
 		return Scalar{App("zero$"+as.Name, as), t}
 	}
@@ -534,6 +537,19 @@ func (e *Env) deref(p Value, at ast.Node) Value {
 	switch pv := p.(type) {
 	case PtrV:
 		e.x.safety(e, "nil", at, Not(pv.Nil))
+		if pv.Alloc == 0 {
+			// the nil pointer: code cannot get here (the obligation above fails); a specification
+			// that dereferences it reads an arbitrary value
+			if pt, ok := pv.Typ.(*types.Pointer); ok && pt != nil {
+				return e.x.havoc(e, pt.Elem(), "nilderef")
+			}
+			if pv.Typ != nil {
+				if pt, ok := pv.Typ.Underlying().(*types.Pointer); ok {
+					return e.x.havoc(e, pt.Elem(), "nilderef")
+				}
+			}
+			unsupported("%s: dereference of the nil pointer", e.where)
+		}
 		return navigate(e.x.memCell(e.st, pv.Alloc), pv.Path)
 	}
 	unsupported("dereference of %T", p)
